@@ -13,6 +13,8 @@ type MetaTrackSequenceName struct {
 	Text string `json:"text"`
 }
 
+func (m MetaTrackSequenceName) textLen() int { return len(m.Text) }
+
 func (m MetaTrackSequenceName) Call(t *smf.Track, deltaticks uint32) {
 	t.Add(deltaticks, smf.MetaTrackSequenceName(m.Text))
 }
@@ -20,6 +22,8 @@ func (m MetaTrackSequenceName) Call(t *smf.Track, deltaticks uint32) {
 type MetaInstrument struct {
 	Text string `json:"text"`
 }
+
+func (m MetaInstrument) textLen() int { return len(m.Text) }
 
 func (m MetaInstrument) Call(t *smf.Track, deltaticks uint32) {
 	t.Add(deltaticks, smf.MetaInstrument(m.Text))
@@ -85,6 +89,8 @@ type MetaText struct {
 	Text string `json:"text"`
 }
 
+func (m MetaText) textLen() int { return len(m.Text) }
+
 func (m MetaText) Call(t *smf.Track, deltaticks uint32) {
 	t.Add(deltaticks, smf.MetaText(m.Text))
 }
@@ -93,6 +99,8 @@ type MetaLyric struct {
 	Text string `json:"text"`
 }
 
+func (m MetaLyric) textLen() int { return len(m.Text) }
+
 func (m MetaLyric) Call(t *smf.Track, deltaticks uint32) {
 	t.Add(deltaticks, smf.MetaLyric(m.Text))
 }
@@ -100,6 +108,8 @@ func (m MetaLyric) Call(t *smf.Track, deltaticks uint32) {
 type MetaMarker struct {
 	Text string `json:"text"`
 }
+
+func (m MetaMarker) textLen() int { return len(m.Text) }
 
 func (m MetaMarker) Call(t *smf.Track, deltaticks uint32) {
 	t.Add(deltaticks, smf.MetaMarker(m.Text))
